@@ -169,6 +169,26 @@ theorem limbBound_le_worst (full full' rs rb ib off : Nat) (hib : 0 < ib) (hoff 
 
 theorem cnvLoBits_lt (off ib : Nat) (h : 0 < ib) : cnvLoBits off ib < ib := Nat.mod_lt _ h
 
+/-! ### the pairwise query as the hal delegate answers it -/
+
+/-- what the tensor formulas need from the pairwise query: the buffer `cnv_pairwise_apply_dft` takes for an accumulator of `D`
+limbs is covered by one of the alternatives the formula maximises over (diagonal query for `D`, pairwise query answered
+for `q` result limbs, temporary of `rs` limbs + normalisation) -/
+def PairwiseCovered (be : BE) (n rs D q a b : Nat) : Prop :=
+  cnvPairwiseTmp be D a b ≤ max (cnvApplyTmp be D a b) (max (cnvPairwiseTmp be q a b) (vecBytes n 1 rs + bigNormTmp be n))
+
+/-- NTT120: the pairwise buffer does not depend on the result size -/
+theorem pairwiseCovered_ntt120 (n rs D q a b : Nat) : PairwiseCovered .ntt120 n rs D q a b := by
+  unfold PairwiseCovered
+  simp only [cnvPairwiseTmp, cnvApplyTmp]
+  split <;> split <;> omega
+
+/-- FFT64: from `N ≥ 8·(a + b)` on the normalisation scratch (24·N bytes) covers it -/
+theorem pairwiseCovered_fft64 (n rs D q a b : Nat) (h : 8 * (a + b) ≤ n) : PairwiseCovered .fft64 n rs D q a b := by
+  unfold PairwiseCovered
+  simp only [cnvPairwiseTmp, cnvApplyTmp, bigNormTmp, BE.big]
+  omega
+
 /-! ### glwe_mul_plain, glwe_tensor_apply, glwe_tensor_square_apply -/
 
 /-- the per-column body of the three products: an accumulator, the convolution, the normalisation -/
@@ -218,14 +238,16 @@ theorem mulPlainAssign_facts (be : BE) (n off : Nat) (res : G) (aSize er ea : Na
   omega
 
 theorem tensorApply_facts (be : BE) (n off : Nat) (res a : G) (bSize ea eb : Nat) (hn : n % 8 = 0)
-    (hea : ea ≤ a.size) (heb : eb ≤ bSize) (hib : 0 < a.b2k) (hoff : cnvHi off a.b2k ≤ ea + eb) :
+    (hea : ea ≤ a.size) (heb : eb ≤ bSize) (hib : 0 < a.b2k) (hoff : cnvHi off a.b2k ≤ ea + eb)
+    (hpw : PairwiseCovered be n res.size (limbBoundWorst (a.size + bSize) res.size res.b2k a.b2k) (min a.size bSize) a.size bSize) :
     Facts (treeGlweTensorApply be n off res a bSize ea eb) (tbGlweTensorApply be n res a bSize) := by
   unfold treeGlweTensorApply
   simp only [wsub, if_pos hoff]
   have hdd := limbBound_le_worst (ea + eb - cnvHi off a.b2k) (a.size + bSize) res.size res.b2k a.b2k (cnvLoBits off a.b2k) hib
     (cnvLoBits_lt off a.b2k hib) (by omega)
   generalize limbBound (ea + eb - cnvHi off a.b2k) res.size res.b2k a.b2k (cnvLoBits off a.b2k) = dd at hdd
-  generalize hD : limbBoundWorst (a.size + bSize) res.size res.b2k a.b2k = D at hdd
+  generalize hD : limbBoundWorst (a.size + bSize) res.size res.b2k a.b2k = D at hdd hpw
+  unfold PairwiseCovered at hpw
   have tail : Facts (AllocTree.take (vecBytes n 1 res.size) (treeBigNormalize be n)) (vecBytes n 1 res.size + bigNormTmp be n) :=
     Facts.take _ (vec_mod64 hn 1 res.size) (bigNorm_Facts be n)
   have b1 := cnvBody_facts be hn dd (cnvApplyTmp be dd ea eb) _ _ tail
@@ -240,19 +262,23 @@ theorem tensorApply_facts (be : BE) (n off : Nat) (res a : G) (bSize ea eb : Nat
   have m5 := dftBytes_mono be n 1 hdd
   have m6 := cnvApply_mono be hdd hea heb
   have m7 := cnvPairwise_mono be hdd hea heb
-  unfold tbGlweTensorApply
+  unfold tbGlweTensorApply cnvPairwiseQuery
   simp only [hD]
   omega
 
 theorem tensorSquare_facts (be : BE) (n off : Nat) (res a : G) (ea : Nat) (hn : n % 8 = 0)
-    (hea : ea ≤ a.size) (hib : 0 < a.b2k) (hoff : cnvHi off a.b2k ≤ 2 * ea) :
+    (hea : ea ≤ a.size) (hib : 0 < a.b2k) (hoff : cnvHi off a.b2k ≤ 2 * ea)
+    (hpw : PairwiseCovered be n 0 (limbBoundWorst (2 * a.size) res.size res.b2k a.b2k) a.size a.size a.size) :
     Facts (treeGlweTensorSquare be n off res a ea) (tbGlweTensorSquare be n res a) := by
   unfold treeGlweTensorSquare
   simp only [wsub, if_pos hoff]
   have hdd := limbBound_le_worst (2 * ea - cnvHi off a.b2k) (2 * a.size) res.size res.b2k a.b2k (cnvLoBits off a.b2k) hib
     (cnvLoBits_lt off a.b2k hib) (by omega)
   generalize limbBound (2 * ea - cnvHi off a.b2k) res.size res.b2k a.b2k (cnvLoBits off a.b2k) = dd at hdd
-  generalize hD : limbBoundWorst (2 * a.size) res.size res.b2k a.b2k = D at hdd
+  generalize hD : limbBoundWorst (2 * a.size) res.size res.b2k a.b2k = D at hdd hpw
+  unfold PairwiseCovered at hpw
+  have hv0 : vecBytes n 1 0 = 0 := by simp [vecBytes]
+  rw [hv0] at hpw
   have b1 := cnvBody_facts be hn dd (cnvApplyTmp be dd ea ea) _ _ (bigNorm_Facts be n)
   have b2 := cnvBody_facts be hn dd (cnvPairwiseTmp be dd ea ea) _ _ (bigNorm_Facts be n)
   refine (Facts.take _ (cnv_mod64 be hn _ _) (Facts.take _ (cnv_mod64 be hn _ _)
@@ -263,7 +289,7 @@ theorem tensorSquare_facts (be : BE) (n off : Nat) (res a : G) (ea : Nat) (hn : 
   have m5 := dftBytes_mono be n 1 hdd
   have m6 := cnvApply_mono be hdd hea hea
   have m7 := cnvPairwise_mono be hdd hea hea
-  unfold tbGlweTensorSquare
+  unfold tbGlweTensorSquare cnvPairwiseQuery
   simp only [hD]
   omega
 
